@@ -100,7 +100,29 @@ def gen_case(rng):
     nsarg = rng.choice([None, None, "p", "ponly"]) if "p:" not in expr else rng.choice(["p", "p", "ponly"])
     if rng.random() < 0.08:
         nsarg = "empty"
-    return {"xml": xml, "ctx": 0 if rng.random() < 0.6 else rng.randrange(0, 1000), "expr": expr, "ns": nsarg}
+    return {"xml": xml, "ctx": 0 if rng.random() < 0.6 else rng.randrange(0, 1000), "expr": expr, "ns": nsarg,
+            "p_uri": rng.choice(P_URIS)}
+
+
+P_URIS = ["urn:p", "urn:p", "urn:p", "urn:q", "http://www.w3.org/2000/svg"]
+
+
+def with_twins(rng, cases):
+    """the same expression text is used again on another document with the prefix bound to another namespace (parsed
+    expressions are cached per text: what one call derived from its namespaces must not leak into the next)"""
+    out = []
+    for c in cases:
+        out.append(c)
+        if "p:" in c["expr"] and c["ns"] in ("p", "ponly") and rng.random() < 0.5:
+            twin = gen_case(rng)
+            twin.update(expr=c["expr"], ns=c["ns"], p_uri=rng.choice([u for u in P_URIS if u != c["p_uri"]]))
+            if rng.random() < 0.5:
+                twin["xml"] = c["xml"]
+                twin["ctx"] = c["ctx"]
+            # self-contained for the replay: the earlier call is part of the case
+            twin["after"] = {k: c[k] for k in ("xml", "ctx", "expr", "ns", "p_uri")}
+            out.append(twin)
+    return out
 
 
 def ns_arg(case, ctx_ns):
@@ -110,8 +132,8 @@ def ns_arg(case, ctx_ns):
         return {}
     if case["ns"] == "ponly":
         # prefixes only: unprefixed names are in no namespace for the query and for the creation
-        return {"p": "urn:p"}
-    d = {"p": "urn:p"}
+        return {"p": case.get("p_uri", "urn:p")}
+    d = {"p": case.get("p_uri", "urn:p")}
     if ctx_ns:
         d[""] = ctx_ns
     return d
@@ -154,6 +176,20 @@ def run_impl(case):
     from delb import Document, TagNode, altered_default_filters
     from _delb.exceptions import AmbiguousTreeError, XPathEvaluationError, XPathParsingError
 
+    if case.get("after"):
+        # an earlier call with the same expression text and another binding of the prefix, on its own document
+        from _delb.xpath.parser import parse
+
+        parse.cache_clear()
+        first = case["after"]
+        d0 = Document(first["xml"])
+        with altered_default_filters():
+            t0 = [n for n in [d0.root] + list(d0.root.iterate_descendants()) if isinstance(n, TagNode)]
+        c0 = t0[first["ctx"] % len(t0)]
+        try:
+            c0.fetch_or_create_by_xpath(first["expr"], namespaces=ns_arg(first, c0.namespace))
+        except Exception:  # noqa: BLE001
+            pass
     doc = Document(case["xml"])
     with altered_default_filters():
         nodes = [doc.root] + list(doc.root.iterate_descendants())
@@ -338,13 +374,13 @@ def check(run: Run, lean: dict) -> int:
             print(f"KNOWN-FINDING: property=C15 {f['key']}: {f['description']}")
             run.known_hit.append(f["key"])
     run_cases(run, corpus(), "corpus", ok)
-    run_cases(run, [gen_case(run.rng) for _ in range(n)], "generated", ok)
+    run_cases(run, with_twins(run.rng, [gen_case(run.rng) for _ in range(n)]), "generated", ok)
     return run.finish(lean, LEVEL, ASSUME, search=search)
 
 
 def search(run: Run):
     probe = Run(run.prop, run.tier, run.seed)
-    cases = [m["case"] for m in run.mismatches] + corpus() + [gen_case(probe.rng) for _ in range(15000)]
+    cases = [m["case"] for m in run.mismatches] + corpus() + with_twins(probe.rng, [gen_case(probe.rng) for _ in range(15000)])
     run_cases(probe, cases, "search", False)
     return [probe.violations[0]] if probe.violations else None
 
